@@ -247,6 +247,9 @@ def r6_std_wrappers(text):
 
     text, n = re.subn(r'\b(\w+)\.write\(\s*(\w+)\s*\)\s*\.expect\(\s*"[^"]*"\s*\)', r'slice_write(\1, \2)', text)
     total += n
+    text, n = re.subn(r'\b([\w\.]+)\[([^\[\]]+?)\.\.([^\[\]]+?)\]\s*\.try_into\(\)\s*\.expect\(\s*"[^"]*"\s*\)',
+                      r'vec_to_array(&\1, \2, \3)', text)
+    total += n
     text, n = _call_rewrite(text, r'min', lambda p, a: f'min_usize({a[0]}, {a[1]})' if len(a) == 2 else None)
     total += n
     text, n = _call_rewrite(text, r'max', lambda p, a: f'max_usize({a[0]}, {a[1]})' if len(a) == 2 else None)
